@@ -9,27 +9,29 @@ RECURSIVE FirstDiff(_, _, _)
 FirstDiff(a, b, i) == IF i > Len(a) /\ i > Len(b) THEN 0 ELSE IF i > Len(a) \/ i > Len(b) \/ a[i] # b[i] THEN i ELSE FirstDiff(a, b, i + 1)
 
 WhyProg(e, ref) ==
-    IF ref.sig = "err" THEN "MACHINERY-reference-error"
+    IF ref.sig = "domain" THEN ""            \* outside the reference's number domain: not judged (counted in `outside`)
+    ELSE IF ref.sig = "err" THEN "MACHINERY-reference-error"
     ELSE IF e.res \notin {"empty", "ok"} THEN "NoSpuriousError"
     ELSE IF e.log # ref.log THEN "StatementsAsPrescribed"
     ELSE IF e.hasvalue /\ e.value # StrOf(ref.value) THEN "ConstructValue"
     ELSE ""
 
-VARIABLES l, bad, nops, done
-tvars == <<l, bad, nops, done>>
-TraceInit == l = 1 /\ bad = <<>> /\ nops = 0 /\ done = FALSE
+VARIABLES l, bad, nops, done, outside
+tvars == <<l, bad, nops, done, outside>>
+TraceInit == l = 1 /\ bad = <<>> /\ nops = 0 /\ done = FALSE /\ outside = 0
 Consume ==
     /\ l <= Len(Log) /\ l' = l + 1 /\ UNCHANGED done
     /\ LET e == Log[l] IN
        CASE e.e = "Prog" ->
                 (LET ref == Run(e.ast) w == WhyProg(e, ref) IN
-                 /\ nops' = nops + 1
+                 /\ nops' = IF ref.sig = "domain" THEN nops ELSE nops + 1
+                 /\ outside' = IF ref.sig = "domain" THEN outside + 1 ELSE outside
                  /\ bad' = IF w = "" THEN bad
                            ELSE Append(bad, [id |-> e.id, line |-> l, why |-> w, op |-> e.class, at |-> FirstDiff(e.log, ref.log, 1),
                                              reflog |-> ref.log, refvalue |-> StrOf(ref.value)]))
-         [] e.e = "Crash" -> bad' = Append(bad, [id |-> e.id, line |-> l, why |-> "Crash", op |-> e.why]) /\ UNCHANGED nops
-         [] OTHER -> UNCHANGED <<bad, nops>>
-Finish == /\ l = Len(Log) + 1 /\ ~done /\ done' = TRUE /\ UNCHANGED <<l, bad, nops>>
-          /\ PrintT("VERDICT " \o ToJson([lines |-> Len(Log), ops |-> nops, bad |-> bad]))
+         [] e.e = "Crash" -> bad' = Append(bad, [id |-> e.id, line |-> l, why |-> "Crash", op |-> e.why]) /\ UNCHANGED <<nops, outside>>
+         [] OTHER -> UNCHANGED <<bad, nops, outside>>
+Finish == /\ l = Len(Log) + 1 /\ ~done /\ done' = TRUE /\ UNCHANGED <<l, bad, nops, outside>>
+          /\ PrintT("VERDICT " \o ToJson([lines |-> Len(Log), ops |-> nops, outside |-> outside, bad |-> bad]))
 TraceSpec == TraceInit /\ [][Consume \/ Finish]_tvars
 =============================================================================
